@@ -161,7 +161,7 @@ def k7_calls(isa, t, tier, rng, half=None):
     if not isc:
         for (b, m) in ([(4, 3), (2, 3), (3, 2), (2, 4), (5, 3), (3, 8), (7, 3)] if full else ([(4, 3), (3, 2), (2, 4)] if isf else [(4, 3)])):
             special.append("g_own_batch<%s,%d,%d>();" % (t, b, m))
-            if isf:
+            if isf and m <= 4:      # batched determinant / inverse exist for matrices up to 4x4 (larger: `_det` asserts)
                 special.append("g_own_batch_la<%s,%d,%d>();" % (t, b, m))
         for n in sorted(set([V + 1, top] + ([3, 5, 7, 9, V, 2 * V, 2 * V + 1] if full else []))):
             special.append("g_own_1d<%s,%d>();" % (t, n))
@@ -284,7 +284,7 @@ def extra_k7_groups(tier, seed):
             for t in FTYPES + ["int32_t"]:
                 calls = thin(k7_calls(isa, t, "quick", rng), 3, seed)
                 groups.append({"key": "k7-asan/%s/%s" % (isa, t), "header": "guard_ops.h", "isa": isa, "opt": "-O1",
-                               "defs": ["-fsanitize=address,undefined", "-fno-sanitize-recover=undefined", "-fno-omit-frame-pointer"], "calls": calls, "pre": pre})
+                               "defs": ["-fsanitize=address,undefined", "-fno-sanitize=alignment", "-fno-sanitize-recover=undefined", "-fno-omit-frame-pointer"], "calls": calls, "pre": pre})
     return groups
 
 THEOREMS = ("Fastor.C07.load3_lanes, store3_lanes, maskLoop_mem, maskAvx_eq_maskLoop, arrayToMask_testBit, kmask_eq_maskLoop, remainderMask_lanes, "
